@@ -218,7 +218,7 @@ pub fn tier_spec(prop: &str, tier: &str) -> TierSpec {
         "C10" => (16_000, 250_000),
         "C11" => (8_000, 120_000),
         "C12" => (8_000, 120_000),
-        "C17" => (16_000, 250_000),
+        "C17" => (10_000, 200_000),
         "C14" => (480, 8_000),
         _ => (8_000, 120_000),
     };
